@@ -386,14 +386,25 @@ def check_signature_fn(ck, fi):
     e_method, e_url, e_params = elems
     e_method = _expand(fi, e_method)
     ck.ob("C48.base-string", ofi, e_method, isinstance(e_method, ast.Call) and q.call_attr(e_method) == "upper" and q.receiver(e_method) == p_method, "first component: the HTTP method, upper-cased")
-    # URL: every piece is resolved to a component of urlparse(url) (tuple position or attribute), a constant, or unknown
+    # URL: every piece is resolved to a component of urlparse(url) (tuple position or attribute), a constant, or unknown.
+    # A same-module single-return helper `normalized_url = _helper(url)` is followed (analysed in the helper's own scope).
     u = _expand(fi, e_url)
-    parts = _flatten_add(u)
+    ufi, u_url = fi, p_url
+    if isinstance(u, ast.Call) and isinstance(u.func, ast.Name) and ck.repo.has_func(fi.file, u.func.id) and not u.keywords:
+        h_ = ck.repo.func(fi.file, u.func.id)
+        hp_ = h_.params()
+        rets_ = [r for r in own_nodes(h_.node) if isinstance(r, ast.Return) and r.value is not None]
+        pos_ = [i for i, a_ in enumerate(u.args) if q.dotted(a_) == p_url]
+        if len(rets_) != 1 or len(hp_) != len(u.args) or len(pos_) != 1:
+            raise AnalysisError("%s: URL normalisation helper %s is not a single-return function of the URL" % (fi.qualname, h_.qualname))
+        ufi, u_url = ck.use(h_), hp_[pos_[0]]
+        u = rets_[0].value
     COMP = {"scheme": 0, "netloc": 1, "path": 2, "params": 3, "query": 4, "fragment": 5}
+    DERIVED = ("hostname", "port", "username", "password")  # computed from netloc: case-folded / brackets and userinfo stripped
 
     def parsed_url(x):
-        x = _resolve(fi, x)
-        return isinstance(x, ast.Call) and q.call_attr(x) in ("urlparse", "urlsplit") and x.args and q.dotted(x.args[0]) == p_url
+        x = _resolve(ufi, x)
+        return isinstance(x, ast.Call) and q.call_attr(x) in ("urlparse", "urlsplit") and x.args and q.dotted(x.args[0]) == u_url
 
     def component(x):
         """index of the urlparse component the expression denotes, else None"""
@@ -406,10 +417,10 @@ def check_signature_fn(ck, fi):
             except q.NotFoldable:
                 return None
         if isinstance(x, ast.Name):
-            for n in own_nodes(fi.node):
+            for n in own_nodes(ufi.node):
                 if isinstance(n, ast.Assign) and isinstance(n.targets[0], ast.Tuple) and all(isinstance(t, ast.Name) for t in n.targets[0].elts):
                     names = [t.id for t in n.targets[0].elts]
-                    if x.id in names and len(_defs(fi, x.id)) == 1:
+                    if x.id in names and len(_defs(ufi, x.id)) == 1:
                         v_ = n.value
                         if isinstance(v_, ast.Subscript) and isinstance(v_.slice, ast.Slice) and v_.slice.lower is None and v_.slice.step is None and parsed_url(v_.value):
                             try:
@@ -420,18 +431,25 @@ def check_signature_fn(ck, fi):
                                 return names.index(x.id)
                         elif parsed_url(v_) and len(names) == 6:
                             return names.index(x.id)
-            d_ = unique_def(fi, x.id)
+            d_ = unique_def(ufi, x.id)
             if d_ is not None:
                 return component(d_)
         return None
 
     shape = []
+    visiting = set()
 
     def pieces(x, lowered):
-        x = x if not isinstance(x, ast.Name) or component(x) is not None else _resolve(fi, x)
+        x = x if not isinstance(x, ast.Name) or component(x) is not None else _resolve(ufi, x)
         if isinstance(x, ast.BinOp) and isinstance(x.op, ast.Add):
             pieces(x.left, lowered)
             pieces(x.right, lowered)
+        elif isinstance(x, ast.BinOp) and isinstance(x.op, ast.Mod) and isinstance(x.left, ast.Constant) and isinstance(x.left.value, str):
+            shape.append(("const", "<%-format>"))
+            for el in (x.right.elts if isinstance(x.right, ast.Tuple) else [x.right]):
+                pieces(el, lowered)
+        elif isinstance(x, ast.BoolOp) and isinstance(x.op, ast.Or) and len(x.values) == 2 and isinstance(x.values[1], ast.Constant):
+            pieces(x.values[0], lowered)  # `part or ""`
         elif isinstance(x, ast.JoinedStr):
             for v_ in x.values:
                 if isinstance(v_, ast.FormattedValue):
@@ -445,10 +463,25 @@ def check_signature_fn(ck, fi):
             shape.append(("const", x.value.lower() if lowered else x.value))
         elif isinstance(x, ast.Call) and q.call_attr(x) == "lower" and not x.args and isinstance(x.func, ast.Attribute):
             pieces(x.func.value, True)
+        elif isinstance(x, ast.Call) and q.dotted(x.func) == "str" and len(x.args) == 1:
+            pieces(x.args[0], lowered)
         elif component(x) is not None:
             shape.append(("lower" if lowered else "raw", component(x)))
-        elif isinstance(x, ast.Name) and x.id == p_url:
+        elif isinstance(x, ast.Attribute) and x.attr in DERIVED and parsed_url(x.value):
+            shape.append(("derived", x.attr))
+        elif isinstance(x, ast.Name) and x.id == u_url:
             shape.append(("whole-url", 0))
+        elif isinstance(x, ast.Name) and len(_defs(ufi, x.id)) > 1 and x.id not in visiting:
+            # a local built up in steps (`host = ...; if ...: host = "%s:%d" % (host, port)`): the pieces of every binding
+            visiting.add(x.id)
+            for d_ in _defs(ufi, x.id):
+                if isinstance(d_, ast.Assign) and len(d_.targets) == 1 and isinstance(d_.targets[0], ast.Name):
+                    pieces(d_.value, lowered)
+                else:
+                    shape.append(("?", q.unparse(d_)))
+            visiting.discard(x.id)
+        elif isinstance(x, ast.Name) and x.id in visiting:
+            pass  # self-reference inside its own re-binding
         else:
             shape.append(("?", q.unparse(x)))
 
@@ -461,10 +494,14 @@ def check_signature_fn(ck, fi):
         else:
             merged.append((k_, v_))
     shape = merged
-    if any(k == "?" for k, _v in shape):
-        raise AnalysisError("%s: normalised URL piece %s is not recognised" % (fi.qualname, [v_ for k, v_ in shape if k == "?"][0][:60]))
+    derived = [v_ for k_, v_ in shape if k_ == "derived"]
+    if any(k == "?" for k, _v in shape) and not derived:
+        raise AnalysisError("%s: normalised URL piece %s is not recognised" % (ufi.qualname, [v_ for k, v_ in shape if k == "?"][0][:60]))
     ok_url = shape == [("lower", 0), ("const", "://"), ("lower", 1), ("raw", 2)]
-    ck.ob("C48.url-normalized", ofi, u, ok_url, "second component: scheme.lower() + '://' + authority.lower() + path of the request URL, query and fragment excluded (resolved shape: %s)" % shape, construct="url " + q.unparse(u))
+    why_ = "resolved shape: %s" % shape
+    if derived:
+        why_ = "the authority is rebuilt from urlparse().%s instead of netloc.lower(): IPv6 brackets / userinfo are dropped and the port is re-rendered" % "/".join(sorted(set(derived)))
+    ck.ob("C48.url-normalized", ofi, u, ok_url, "second component: scheme.lower() + '://' + authority.lower() + path of the request URL, query and fragment excluded (%s)" % why_, construct="url " + q.unparse(u))
     # parameters
     pj = _join_parts(fi, _resolve(fi, e_params))
     if pj is None:
@@ -745,6 +782,7 @@ MUTANTS = [
     ("1.0a: parameter values not escaped", _m("_oauth10a_signature", _unescape_values), "C48.param-values-escaped"),
     ("seeded C48-adv3: formatted name=value strings sorted instead of the pairs", _m("_oauth_signature", replace_expr(lambda n: isinstance(n, ast.Call) and isinstance(n.func, ast.Attribute) and n.func.attr == "join" and "parameters.items" in _src(n), lambda n: parse_expr("'&'.join(sorted(f'{k}={_oauth_escape(str(v))}' for k, v in parameters.items()))"))), "C48.params-sorted"),
     ("1.0: parameters not sorted", _m("_oauth_signature", replace_expr(lambda n: isinstance(n, ast.Call) and _src(n.func) == "sorted", lambda n: n.args[0])), "C48.params-sorted"),
+    ("seeded C48-adv5: URL normalisation moved to a helper that rebuilds the authority from hostname/port", lambda repo: mutate(repo, F, None, _normalize_helper), "C48.url-normalized"),
     ("1.0a: authority not lower-cased", _m("_oauth10a_signature", replace_expr(lambda n: isinstance(n, ast.Call) and _src(n) == "netloc.lower()", lambda n: ast.Name(id="netloc", ctx=ast.Load()))), "C48.url-normalized"),
     ("1.0a: whole URL (with query) signed instead of the normalised one", _m("_oauth10a_signature", replace_expr(lambda n: isinstance(n, ast.Call) and _src(n) == "base_elems.append(normalized_url)", lambda n: parse_expr("base_elems.append(url)"))), "C48.url-normalized"),
     ("1.0a: path lower-cased too", _m("_oauth10a_signature", replace_stmt(lambda st: isinstance(st, ast.Assign) and _src(st).startswith("normalized_url ="), lambda st: [parse_stmt("normalized_url = (scheme + '://' + netloc + path).lower()")])), "C48.url-normalized"),
@@ -775,3 +813,26 @@ def _move_update_after(root):
             n.body.append(upd[0])
             return True
     return False
+
+
+def _to_helper(tree, body_src):
+    done = 0
+    for fn in tree.body:
+        if isinstance(fn, ast.FunctionDef) and fn.name in SIGS:
+            keep = []
+            for st in fn.body:
+                src = _src(st)
+                if src.startswith("parts = urllib.parse.urlparse(url)") or src.startswith("scheme, netloc, path = parts[:3]"):
+                    continue
+                if src.startswith("normalized_url ="):
+                    keep.append(parse_stmt("normalized_url = _oauth_normalize_url(url)"))
+                    done += 1
+                    continue
+                keep.append(st)
+            fn.body = keep
+    tree.body.append(ast.parse(body_src).body[0])
+    return done == 2
+
+
+def _normalize_helper(tree):
+    return _to_helper(tree, "def _oauth_normalize_url(url):\n    parts = urllib.parse.urlparse(url)\n    host = parts.hostname or ''\n    if parts.port is not None:\n        host = '%s:%d' % (host, parts.port)\n    return parts.scheme.lower() + '://' + host + parts.path\n")
